@@ -245,6 +245,23 @@ fn run_client(cid: usize, sc: ClientScript, server: SocketAddr, out: Arc<Mutex<C
                 let _g = wlock.lock().unwrap();
                 let _ = s.write_all(&frame_bytes(0x9, b"hb", true, n as u32));
             }
+            _ if st.burst >= 1000 => {
+                // a large burst: over a thousand small plain messages in one write, far more than
+                // any per-pass budget of the poll loop
+                let mut all = Vec::new();
+                let mut payloads = Vec::new();
+                for _ in 0..st.burst.min(2000) {
+                    let payload = format!("Pc{}m{}-{}", cid, n, "x".repeat(n % 7)).into_bytes();
+                    n += 1;
+                    all.extend(frame_bytes(1, &payload, true, n as u32));
+                    payloads.push(payload);
+                }
+                let _g = wlock.lock().unwrap();
+                if s.write_all(&all).is_ok() {
+                    let at = sim::decision_index();
+                    out.lock().unwrap().sent.extend(payloads.into_iter().map(|p| (p, at)));
+                }
+            }
             _ => {
                 for _ in 0..st.burst.clamp(1, 4) {
                     let tag = match st.kind.as_str() {
@@ -367,7 +384,7 @@ impl Prop for C12 {
         }
     }
     fn rule(&self) -> &'static str {
-        "One case = 1..8 reference clients each running a script over {connect at a time, send text/binary messages (possibly fragmented, with all fragments in one write or 1..40 ms apart so that a message is spread over several polls; bursts of several within one poll interval; plain, asking the handler for a unicast reply, asking for a broadcast), ping, sleep} and ending by Close frame (sometimes followed by a data frame, which must not be dispatched), abrupt FIN, closing the socket outright (server writes to it then fail), going silent (partition, with heartbeat on) or staying connected; an external AsyncSender thread issuing unicasts and broadcasts (3..60 KB ones when a slow-reading client with a 600..4000-byte receive window is present) at scripted virtual times; handler pools of 1..8 threads; poll interval none / 1..10 ms; heartbeat off or (interval, timeout); linked and unlinked construction; then the shutdown signal. All under one seeded schedule (random / sticky / PCT / round-robin) of the poll loop, the pool, the front App and the clients. Distinct = distinct event-log shape (per client: connect / message count / disconnect, order class) plus configuration; non-trivial = at least two clients or one client with at least two messages, and at least one server-side send."
+        "One case = 1..8 reference clients each running a script over {connect at a time, send text/binary messages (possibly fragmented, with all fragments in one write or 1..40 ms apart so that a message is spread over several polls; bursts of several within one poll interval, now and then 1200 in one write; plain, asking the handler for a unicast reply, asking for a broadcast), ping, sleep} and ending by Close frame (sometimes followed by a data frame, which must not be dispatched), abrupt FIN, closing the socket outright (server writes to it then fail), going silent (partition, with heartbeat on) or staying connected; an external AsyncSender thread issuing unicasts and broadcasts (3..60 KB ones when a slow-reading client with a 600..4000-byte receive window is present) at scripted virtual times; handler pools of 1..8 threads; poll interval none / 1..10 ms; heartbeat off or (interval, timeout); linked and unlinked construction; then the shutdown signal. All under one seeded schedule (random / sticky / PCT / round-robin) of the poll loop, the pool, the front App and the clients. Distinct = distinct event-log shape (per client: connect / message count / disconnect, order class) plus configuration; non-trivial = at least two clients or one client with at least two messages, and at least one server-side send."
     }
     fn assumptions(&self) -> Vec<String> {
         vec![
@@ -380,7 +397,7 @@ impl Prop for C12 {
         ]
     }
     fn expected_counters(&self) -> Vec<&'static str> {
-        vec!["c12.clients", "c12.messages_sent", "c12.fragmented", "c12.fragments_spread_over_polls", "c12.bursts", "c12.unicast_replies", "c12.handler_broadcasts", "c12.external_sends", "c12.close_endings", "c12.fin_endings", "c12.data_after_close", "c12.drop_endings", "c12.silent_endings", "c12.close_near_timeout_endings", "c12.heartbeat_on", "c12.linked", "c12.unlinked", "c12.single_handler_thread", "c12.slow_reader", "c12.no_poll_interval", "net.silent_peer"]
+        vec!["c12.clients", "c12.messages_sent", "c12.fragmented", "c12.fragments_spread_over_polls", "c12.bursts", "c12.burst_of_over_1000_messages", "c12.unicast_replies", "c12.handler_broadcasts", "c12.external_sends", "c12.close_endings", "c12.fin_endings", "c12.data_after_close", "c12.drop_endings", "c12.silent_endings", "c12.close_near_timeout_endings", "c12.heartbeat_on", "c12.linked", "c12.unlinked", "c12.single_handler_thread", "c12.slow_reader", "c12.no_poll_interval", "net.silent_peer"]
     }
     fn real_vs_stub(&self) -> (Vec<&'static str>, Vec<&'static str>) {
         (vec!["AsyncWebsocketApp::run, AsyncStream/AsyncSender, async_websocket_handler + handshake, WebsocketStream::recv_nonblocking/send/ping, ThreadPool, App"], vec!["threads, Mutex/mpsc, sleep, Instant, TCP, the streams HashMap's hasher (humsim)", "clients are harness reference RFC 6455 implementations"])
@@ -464,6 +481,17 @@ impl Prop for C12 {
                 e.size = [3000usize, 20_000, 60_000][rng2.usize_below(3)];
             }
         }
+        // one case in ten with a heartbeat: a client sends over a thousand small messages in one
+        // write while heartbeats are tight (200 ms / 300 ms) and the poll interval is 10 ms -- a live
+        // client that answers its pings stays connected however much it sends
+        let mut rng4 = Rng::new(humsim::rng::mix(&[run_seed(seed, "C12", idx), 0xC12_0004]));
+        let big_burst = heartbeat.is_some() && rng4.chance(1, 10);
+        let heartbeat = if big_burst { Some((200u64, 300u64)) } else { heartbeat };
+        if big_burst {
+            let k = rng4.usize_below(nclients);
+            let at = rng4.usize_below(clients[k].steps.len() + 1);
+            clients[k].steps.insert(at, Step { op: "msg".into(), kind: "plain".into(), binary: false, frags: 0, burst: 1200, ms: 0, frag_gap_ms: 0 });
+        }
         let mut sim = SimParams::draw(&mut rng, true);
         sim.short_write_permille = 0;
         sim.rx_capacity = None;
@@ -475,6 +503,9 @@ impl Prop for C12 {
         // no polling interval at all (the loop spins): one case in eight
         if rng2.chance(1, 8) {
             poll_ms = 0;
+        }
+        if big_burst {
+            poll_ms = 10;
         }
         serde_json::to_value(Scn { sim, linked, handler_threads, poll_ms, heartbeat, clients, external }).unwrap()
     }
@@ -655,7 +686,10 @@ impl Prop for C12 {
             }
             for s in &c.steps {
                 if s.op == "msg" {
-                    rr.count("c12.messages_sent", s.burst.clamp(1, 4) as u64);
+                    rr.count("c12.messages_sent", if s.burst >= 1000 { s.burst.min(2000) } else { s.burst.clamp(1, 4) } as u64);
+                    if s.burst >= 1000 {
+                        rr.count("c12.burst_of_over_1000_messages", 1);
+                    }
                     if s.frags > 0 && s.frag_gap_ms > 0 {
                         rr.count("c12.fragments_spread_over_polls", 1);
                     }
